@@ -165,7 +165,8 @@ package corebgp
 //@   ensures [fault_present] err != nil ==> r == nil && 0 <= fpos && fpos < len(b) && !pfxOK(b, fpos, ipv6)
 //@   loop#0 invariant [suffix]  suffixOf(b, b0) && fresh(prefixes.arr)
 //@   loop#0 invariant [chain]   pfxChain(b0, offs, len(prefixes), offsetIn(b, b0))
-//@   loop#0 invariant [entries] forall k :: 0 <= k && k < len(prefixes) ==> pfxOK(b0, offs[k], ipv6) && prefixes[k] == pfxAt(b0, offs[k], ipv6)
+//@   loop#0 invariant [entries] forall k :: 0 <= k && k < len(prefixes) ==> pfxOK(b0, offs[k], ipv6)
+//@   loop#0 invariant [entry_values] forall k :: 0 <= k && k < len(prefixes) ==> prefixes[k] == pfxAt(b0, offs[k], ipv6)
 //@   loop#0 decreases len(b)
 
 // add-path entries: <4-octet path id, length octet, address octets>
@@ -485,7 +486,13 @@ package corebgp
 //@   loop#0 invariant [kept] (old(n) != nil ==> n == old(n)) && (old(taw) != nil ==> taw == old(taw)) && (old(ad) != nil ==> ad == old(ad)) && (old(ue) != nil ==> ue == old(ue))
 //@   loop#0 invariant [found] (isType(x, *TreatAsWithdrawUpdateErr) && asType(x, *TreatAsWithdrawUpdateErr) != nil ==> taw != nil) && (isType(x, *AttrDiscardUpdateErr) && asType(x, *AttrDiscardUpdateErr) != nil ==> ad != nil)
 //@   loop#0 invariant [ue_foreign] ue != nil ==> !isType(ue, *Notification) && !isType(ue, *TreatAsWithdrawUpdateErr) && !isType(ue, *AttrDiscardUpdateErr)
+//@   ghostvar descents int = 0
+//@   ghostvar askedMany bool = false
+//@   at call unwrap set descents = descents + 1
+//@   at call Unwrap#1 set askedMany = true
 //@   modifies &n, &taw, &ad, &ue
+//@   ensures [a_wrapper_is_walked_whatever_else_it_is] err != nil && !isType(err, *Notification) && wrapsOne(err) ==> descents >= 1
+//@   ensures [a_join_is_walked_whatever_else_it_is] err != nil && !isType(err, *Notification) && !wrapsOne(err) && wrapsMany(err) ==> askedMany
 //@   ensures [first_kept_n]   old(n) != nil ==> n == old(n)
 //@   ensures [first_kept_taw] old(taw) != nil ==> taw == old(taw)
 //@   ensures [first_kept_ad]  old(ad) != nil ==> ad == old(ad)
